@@ -69,6 +69,8 @@ def run(chk):
     _state.run_param_batch(chk)
     from props import C16 as _c16
     _c16.run_rejected_adds(chk, 150 if chk.tier == "quick" else 4000)   # rejected Model::add calls leave nothing behind
+    from props import C20 as _c20
+    _c20.run_eq_leg(chk, lambda name: "Optimizer" in name or "Model" in name)   # rejected C API calls leave optimizers / models unchanged
     from props import C09 as _c09
     _c09.run_batch_rules(chk, extra_random=2500 if chk.tier == "quick" else 40000)   # values near 2^32 must raise, not wrap
     for f in _compose.load(["_funcs"], chk):
